@@ -180,9 +180,13 @@ func must(err error) {
 }
 
 func actorAddr(i int) sdk.AccAddress {
-	b := make([]byte, 20)
+	n := 20
+	if i == 3 {
+		n = 32 // one delegator has a 32-byte address (module, interchain and contract accounts have): key parsing must cope
+	}
+	b := make([]byte, n)
 	copy(b, []byte(fmt.Sprintf("vmon-actor-%02d", i)))
-	b[19] = byte(i + 1)
+	b[n-1] = byte(i + 1)
 	return sdk.AccAddress(b)
 }
 
